@@ -1414,12 +1414,272 @@ theorem bind_ok {α β} {a : Res α} {f : α → Res β} {y : β} (h : (a >>= f)
   | error e => simp [bind, Except.bind] at h
   | ok x => exact ⟨x, rfl, h⟩
 
+/-! ### frame of the copies made through `copyDenseIter` (temporaries of `Repeat` / `RepeatReuse`) -/
+
+/-- what a call that writes the buffer `buf` and may allocate leaves of the heap it found: no buffer
+    disappears, and every buffer that existed, other than `buf`, is what it was -/
+def Keeps (st st' : St) (buf : Nat) : Prop :=
+  st.heap.size ≤ st'.heap.size ∧ ∀ b, b < st.heap.size → b ≠ buf → st'.heap[b]? = st.heap[b]?
+
+theorem Keeps.refl (st : St) (buf : Nat) : Keeps st st buf := ⟨Nat.le_refl _, fun _ _ _ => rfl⟩
+
+/-- two calls in a row; the second writes the same buffer or one that did not exist at the start -/
+theorem Keeps.trans {st st1 st2 : St} {b1 b2 : Nat} (h1 : Keeps st st1 b1) (h2 : Keeps st1 st2 b2)
+    (hb : b2 = b1 ∨ st.heap.size ≤ b2) : Keeps st st2 b1 := by
+  refine ⟨Nat.le_trans h1.1 h2.1, ?_⟩
+  intro b hb1 hne
+  have hne2 : b ≠ b2 := by rcases hb with h | h <;> omega
+  rw [h2.2 b (Nat.lt_of_lt_of_le hb1 h1.1) hne2, h1.2 b hb1 hne]
+
+theorem Keeps.of_eq {st st' : St} {buf : Nat} (hs : st'.heap.size = st.heap.size)
+    (hf : ∀ b, b ≠ buf → st'.heap[b]? = st.heap[b]?) : Keeps st st' buf :=
+  ⟨by omega, fun b _ hb => hf b hb⟩
+
+theorem set_keeps {s s' : St} {w : Win} {i : Int} {v : Val} (h : s.set w i v = .ok s') :
+    s'.heap.size = s.heap.size ∧ ∀ b, b ≠ w.buf → s'.heap[b]? = s.heap[b]? := by
+  unfold St.set at h
+  split at h
+  · simp [throwPanic] at h
+  · split at h
+    · simp [throwPanic] at h
+    · split at h
+      · simp only [Except.ok.injEq] at h
+        subst h
+        refine ⟨by simp, fun b hb => ?_⟩
+        simp only [Array.set!_eq_setIfInBounds]
+        rw [Array.getElem?_setIfInBounds_ne (Ne.symm hb)]
+      · simp [throwPanic] at h
+
+theorem mset_heap {s s' : St} {w : Win} {i : Int} {v : Bool} (h : s.mset w i v = .ok s') : s'.heap = s.heap := by
+  unfold St.mset at h
+  split at h
+  · simp [throwPanic] at h
+  · split at h
+    · simp [throwPanic] at h
+    · split at h
+      · simp only [Except.ok.injEq] at h
+        subst h
+        rfl
+      · simp [throwPanic] at h
+
+theorem rawCopy_wr_keeps (dst : Win) : ∀ (vals : List Val) (s s' : St) (j : Int),
+    Dense.rawCopy.wr dst s j vals = .ok s' →
+      s'.heap.size = s.heap.size ∧ ∀ b, b ≠ dst.buf → s'.heap[b]? = s.heap[b]?
+  | [], s, s', j, h => by
+    simp only [Dense.rawCopy.wr, Except.ok.injEq] at h
+    subst h
+    exact ⟨rfl, fun _ _ => rfl⟩
+  | v :: vs, s, s', j, h => by
+    simp only [Dense.rawCopy.wr, bind, Except.bind] at h
+    cases h1 : s.set dst j v with
+    | error e => rw [h1] at h; cases h
+    | ok s1 =>
+      rw [h1] at h
+      obtain ⟨a1, a2⟩ := set_keeps h1
+      obtain ⟨b1, b2⟩ := rawCopy_wr_keeps dst vs s1 s' (j + 1) h
+      exact ⟨b1.trans a1, fun b hb => (b2 b hb).trans (a2 b hb)⟩
+
+theorem rawCopy_keeps {s s' : St} {dst src : Win} (h : Dense.rawCopy s dst src = .ok s') :
+    s'.heap.size = s.heap.size ∧ ∀ b, b ≠ dst.buf → s'.heap[b]? = s.heap[b]? := by
+  unfold Dense.rawCopy at h
+  simp only [bind, Except.bind] at h
+  cases hv : (rangeI (min dst.len src.len)).mapM (fun i => s.get src i) with
+  | error e => simp [hv] at h
+  | ok vals =>
+    simp only [hv] at h
+    exact rawCopy_wr_keeps dst vals s s' 0 h
+
+theorem copyIterOffsets_keeps (dst src : Win) : ∀ (is js : List Int) (s s' : St),
+    Dense.copyIterOffsets s dst src is js = .ok s' →
+      s'.heap.size = s.heap.size ∧ ∀ b, b ≠ dst.buf → s'.heap[b]? = s.heap[b]?
+  | [], _, s, s', h => by
+    simp only [Dense.copyIterOffsets, Except.ok.injEq] at h
+    subst h
+    exact ⟨rfl, fun _ _ => rfl⟩
+  | _ :: _, [], s, s', h => by
+    simp only [Dense.copyIterOffsets, Except.ok.injEq] at h
+    subst h
+    exact ⟨rfl, fun _ _ => rfl⟩
+  | i :: is, j :: js, s, s', h => by
+    simp only [Dense.copyIterOffsets] at h
+    split at h
+    · simp [throwPanic] at h
+    · simp only [bind, Except.bind] at h
+      cases hs : s.heap[src.buf]? with
+      | none => simp [hs, throwPanic] at h
+      | some bs =>
+        simp only [hs] at h
+        cases hv : bs[src.off + j.toNat]? with
+        | none => simp [hv, throwPanic] at h
+        | some v =>
+          simp only [hv, pure, Except.pure] at h
+          cases hd : s.heap[dst.buf]? with
+          | none => simp [hd, throwPanic] at h
+          | some b =>
+            simp only [hd] at h
+            split at h
+            · obtain ⟨a1, a2⟩ := copyIterOffsets_keeps dst src is js _ s' h
+              refine ⟨by rw [a1]; simp, fun b' hb' => ?_⟩
+              rw [a2 b' hb']
+              simp only [Array.set!_eq_setIfInBounds]
+              rw [Array.getElem?_setIfInBounds_ne (Ne.symm hb')]
+            · simp [throwPanic] at h
+
+theorem copyMask_wr_heap (dm : Win) (n : Nat) : ∀ (vals : List Bool) (s s' : St) (j : Int),
+    Dense.copyMask.wr dm n s j vals = .ok s' → s'.heap = s.heap
+  | [], s, s', j, h => by
+    simp only [Dense.copyMask.wr, Except.ok.injEq] at h
+    subst h
+    rfl
+  | v :: vs, s, s', j, h => by
+    simp only [Dense.copyMask.wr, bind, Except.bind] at h
+    split at h
+    · simp only [Except.ok.injEq] at h
+      subst h
+      rfl
+    · cases h1 : s.mset dm j v with
+      | error e => rw [h1] at h; cases h
+      | ok s1 =>
+        rw [h1] at h
+        exact (copyMask_wr_heap dm n vs s1 s' (j + 1) h).trans (mset_heap h1)
+
+theorem copyMaskOffsets_heap (dm sm : Win) : ∀ (is js : List Int) (s s' : St),
+    Dense.copyMaskOffsets s dm sm is js = .ok s' → s'.heap = s.heap
+  | [], _, s, s', h => by
+    simp only [Dense.copyMaskOffsets, Except.ok.injEq] at h
+    subst h
+    rfl
+  | _ :: _, [], s, s', h => by
+    simp only [Dense.copyMaskOffsets, Except.ok.injEq] at h
+    subst h
+    rfl
+  | i :: is, j :: js, s, s', h => by
+    simp only [Dense.copyMaskOffsets, bind, Except.bind] at h
+    cases hv : s.mget sm j with
+    | error e => rw [hv] at h; cases h
+    | ok v =>
+      rw [hv] at h
+      cases h1 : s.mset dm i v with
+      | error e => simp only [h1] at h; cases h
+      | ok s1 =>
+        simp only [h1] at h
+        exact (copyMaskOffsets_heap dm sm is js s1 s' h).trans (mset_heap h1)
+
+theorem copyMask_heap {s s' : St} {dst src d' : Dense} (h : Dense.copyMask s dst src = .ok (s', d')) :
+    s'.heap = s.heap ∧ d'.win = dst.win := by
+  unfold Dense.copyMask at h
+  cases hsm : src.mask with
+  | none =>
+    simp only [hsm, pure, Except.pure, Except.ok.injEq, Prod.mk.injEq] at h
+    obtain ⟨rfl, rfl⟩ := h
+    exact ⟨rfl, rfl⟩
+  | some sm =>
+    simp only [hsm] at h
+    split at h
+    · simp only [pure, Except.pure, Except.ok.injEq, Prod.mk.injEq] at h
+      obtain ⟨rfl, rfl⟩ := h
+      exact ⟨rfl, rfl⟩
+    · simp only [bind, Except.bind] at h
+      cases hv : (rangeI sm.len).mapM (fun i => s.mget sm i) with
+      | error e => simp [hv] at h
+      | ok svals =>
+        simp only [hv] at h
+        cases hdm : dst.mask with
+        | none =>
+          simp only [hdm] at h
+          split at h
+          · simp only [St.allocMask, pure, Except.pure, Except.ok.injEq, Prod.mk.injEq] at h
+            obtain ⟨rfl, rfl⟩ := h
+            exact ⟨rfl, rfl⟩
+          · simp only [pure, Except.pure, Except.ok.injEq, Prod.mk.injEq] at h
+            obtain ⟨rfl, rfl⟩ := h
+            exact ⟨rfl, rfl⟩
+        | some dm =>
+          simp only [hdm] at h
+          split at h
+          · simp only [St.allocMask, pure, Except.pure, Except.ok.injEq, Prod.mk.injEq] at h
+            obtain ⟨rfl, rfl⟩ := h
+            exact ⟨rfl, rfl⟩
+          · cases hw : Dense.copyMask.wr dm (min dm.len sm.len) s 0 svals with
+            | error e => simp [hw] at h
+            | ok s1 =>
+              simp only [hw, pure, Except.pure, Except.ok.injEq, Prod.mk.injEq] at h
+              obtain ⟨rfl, rfl⟩ := h
+              exact ⟨copyMask_wr_heap dm _ svals s s1 0 hw, rfl⟩
+
+theorem maskGrow_heap (s : St) (dst : Dense) (dm0 : Win) (s0 : St) (d0 : Dense) (dm : Win)
+    (hx : (if dm0.len < dst.win.len then do
+        let old ← (rangeI dm0.len).mapM (fun i => s.mget dm0 i)
+        let (s, b) := s.allocMask (old ++ List.replicate (dst.win.len - dm0.len) false).toArray
+        let dm : Win := ⟨b, 0, dst.win.len, dst.win.len⟩
+        pure (s, { dst with mask := some dm }, dm)
+      else pure (s, dst, dm0) : Res (St × Dense × Win)) = .ok (s0, d0, dm)) : s0.heap = s.heap := by
+  split at hx
+  · simp only [bind, Except.bind] at hx
+    cases hv : (rangeI dm0.len).mapM (fun i => s.mget dm0 i) with
+    | error e => simp [hv] at hx
+    | ok old =>
+      simp only [hv, St.allocMask, pure, Except.pure, Except.ok.injEq, Prod.mk.injEq] at hx
+      obtain ⟨rfl, _⟩ := hx
+      rfl
+  · simp only [pure, Except.pure, Except.ok.injEq, Prod.mk.injEq] at hx
+    obtain ⟨rfl, _⟩ := hx
+    rfl
+
+theorem copyMaskIter_heap {s s' : St} {dst src d' : Dense} {doffs soffs : List Int}
+    (h : Dense.copyMaskIter s dst src doffs soffs = .ok (s', d')) : s'.heap = s.heap := by
+  unfold Dense.copyMaskIter at h
+  split at h
+  · simp only [pure, Except.pure, Except.ok.injEq, Prod.mk.injEq] at h
+    obtain ⟨rfl, _⟩ := h
+    rfl
+  · obtain ⟨⟨s0, d0, dm⟩, hx, h⟩ := bind_ok h
+    obtain ⟨s1, hc, h⟩ := bind_ok h
+    simp only [pure, Except.pure, Except.ok.injEq, Prod.mk.injEq] at h
+    obtain ⟨rfl, _⟩ := h
+    exact (copyMaskOffsets_heap _ _ _ _ _ _ hc).trans (maskGrow_heap _ _ _ _ _ _ hx)
+/-- `copyDenseIter(dst, src, nil, nil)` writes the destination's buffer only and allocates no data buffer -/
+theorem copyDenseIter_keeps {s s' : St} {dst src d' : Dense} (h : Dense.copyDenseIter s dst src = .ok (s', d')) :
+    s'.heap.size = s.heap.size ∧ ∀ b, b ≠ dst.win.buf → s'.heap[b]? = s.heap[b]? := by
+  unfold Dense.copyDenseIter at h
+  split at h
+  · unfold Dense.copyDense at h
+    obtain ⟨⟨s1, d1⟩, h1, h⟩ := bind_ok h
+    obtain ⟨s2, h2, h⟩ := bind_ok h
+    simp only [pure, Except.pure, Except.ok.injEq, Prod.mk.injEq] at h
+    obtain ⟨rfl, _⟩ := h
+    obtain ⟨e1, ew⟩ := copyMask_heap h1
+    obtain ⟨a1, a2⟩ := rawCopy_keeps h2
+    rw [ew] at a2
+    rw [e1] at a1 a2
+    exact ⟨a1, a2⟩
+  · obtain ⟨s1, h1, h⟩ := bind_ok h
+    obtain ⟨a1, a2⟩ := copyIterOffsets_keeps _ _ _ _ _ _ h1
+    have e := copyMaskIter_heap h
+    rw [e]
+    exact ⟨a1, a2⟩
+
+/-- the head of `denseRepeat`: whatever the layout of the source, nothing that existed is written — a
+    source that has to be copied is copied into a buffer of its own -/
+theorem repeatSource_keeps {st st1 : St} {t t1 : Dense} (h : repeatSource st t = .ok (st1, t1)) :
+    st.heap.size ≤ st1.heap.size ∧ ∀ b, b < st.heap.size → st1.heap[b]? = st.heap[b]? := by
+  unfold repeatSource at h
+  split at h
+  · simp only [pure, Except.pure, Except.ok.injEq, Prod.mk.injEq] at h
+    obtain ⟨rfl, _⟩ := h
+    exact ⟨Nat.le_refl _, fun _ _ => rfl⟩
+  · obtain ⟨⟨s0, tmp⟩, h0, h⟩ := bind_ok h
+    obtain ⟨cells, hheap, hbuf, _⟩ := recycled_spec st s0 t.dt t.shape tmp h0
+    obtain ⟨a1, a2⟩ := copyDenseIter_keeps h
+    have hsz : s0.heap.size = st.heap.size + 1 := by rw [hheap]; simp
+    refine ⟨by omega, fun b hb => ?_⟩
+    rw [a2 b (by show b ≠ tmp.win.buf; omega), hheap, Array.getElem?_push_lt hb]
+    simp
+
+/-- `denseRepeat` writes the storage of its destination and of its own temporary, nothing else -/
 theorem denseRepeat_frame (st st' : St) (t d : Dense) (newShape : Shape) (axis size : Int) (reps : List Int)
-    (h : denseRepeat st t d newShape axis size reps = .ok st') :
-    st'.heap.size = st.heap.size ∧ ∀ b, b ≠ d.win.buf → st'.heap[b]? = st.heap[b]? := by
+    (h : denseRepeat st t d newShape axis size reps = .ok st') : Keeps st st' d.win.buf := by
   unfold denseRepeat at h
-  obtain ⟨p, _, h⟩ := bind_ok h
-  obtain ⟨outers, stride, newStride⟩ := p
   simp only [pure, Except.pure, bind, Except.bind, throwPanic] at h
   split at h
   · cases h
@@ -1427,11 +1687,21 @@ theorem denseRepeat_frame (st st' : St) (t d : Dense) (newShape : Shape) (axis s
     · cases h
     · split at h
       · cases h
-      · split at h
+      · rename_i x hsrc
+        obtain ⟨st1, t1⟩ := x
+        obtain ⟨k1, k2⟩ := repeatSource_keeps hsrc
+        simp only at h
+        split at h
         · cases h
         · split at h
           · cases h
-          · exact writeCells_frame st st' d.win _ h
+          · split at h
+            · cases h
+            · split at h
+              · cases h
+              · obtain ⟨w1, w2⟩ := writeCells_frame _ st' d.win _ h
+                refine ⟨by omega, fun b hb hne => ?_⟩
+                rw [w2 b hne, k2 b hb]
 
 theorem repeatNew_frame (st st' : St) (t d : Dense) (axis : Int) (reps : List Int)
     (h : repeatNew st t axis reps = .ok (st', d)) :
@@ -1444,10 +1714,49 @@ theorem repeatNew_frame (st st' : St) (t d : Dense) (axis : Int) (reps : List In
   obtain ⟨rfl, rfl⟩ := h
   obtain ⟨cells, hheap, hbuf, _⟩ := recycled_spec st st1 t.dt newShape rr h1
   obtain ⟨_, hfr⟩ := denseRepeat_frame st1 st2 t rr newShape _ size newReps h2
+  have hsz : st1.heap.size = st.heap.size + 1 := by rw [hheap]; simp
   refine ⟨hbuf, ?_⟩
   intro b hb
-  rw [hfr b (by omega), hheap, Array.getElem?_push_lt hb]
+  rw [hfr b (by omega) (by omega), hheap, Array.getElem?_push_lt hb]
   simp
+
+/-- `RepeatReuse`, whatever the layouts of the source and of the reuse tensor: of the buffers that existed
+    only the reuse tensor's is written (a reuse tensor that is not stored in row-major order is filled by
+    `copyDenseIter` from a temporary of its own) -/
+theorem repeatReuse_frame (st st' : St) (t reuse : Dense) (axis : Int) (reps : List Int)
+    (h : repeatReuse st t reuse axis reps = .ok st') : Keeps st st' reuse.win.buf := by
+  unfold repeatReuse at h
+  obtain ⟨⟨newShape, newReps, size⟩, _, h⟩ := bind_ok h
+  simp only [bind, Except.bind, throwErr, throwPanic, pure, Except.pure] at h
+  split at h
+  · cases h
+  · split at h
+    · split at h
+      · cases h
+      · split at h
+        · cases h
+        · rename_i x h0
+          obtain ⟨s0, tmp⟩ := x
+          obtain ⟨cells, hheap, hbuf, _⟩ := recycled_spec st s0 t.dt newShape tmp h0
+          have hsz : s0.heap.size = st.heap.size + 1 := by rw [hheap]; simp
+          simp only at h
+          split at h
+          · cases h
+          · rename_i s1 h1
+            have k1 := denseRepeat_frame s0 s1 t tmp newShape _ size newReps h1
+            split at h
+            · cases h
+            · split at h
+              · cases h
+              · rename_i y h2
+                obtain ⟨s2, d2⟩ := y
+                simp only [Except.ok.injEq] at h
+                subst h
+                obtain ⟨c1, c2⟩ := copyDenseIter_keeps h2
+                refine ⟨by have := k1.1; omega, fun b hb hne => ?_⟩
+                rw [c2 b hne, k1.2 b (by omega) (by omega), hheap, Array.getElem?_push_lt hb]
+                simp
+    · exact denseRepeat_frame st st' t reuse newShape _ size newReps h
 
 theorem stackDense_frame (st st' : St) (t d : Dense) (axis : Int) (others : List Dense)
     (h : stackDense st t axis others = .ok (st', d)) :
